@@ -176,7 +176,7 @@ def run(ctx):
         DFLT = T("get", "g:port_by_scheme", scheme_eff) if scheme_eff else None
         if "self.host" in memos:
             h_none = facts.get(H_, (None, None))[1]
-            want_h = H_ if h_none is True else (T("_normalize_host", H_, f"scheme={scheme_eff}") if scheme_eff else None)
+            want_h = H_ if h_none is True else (T("_normalize_host", H_, scheme_eff) if scheme_eff else None)
             got = memos["self.host"][0]
             if not (got == want_h or (h_none is True and got == "None")):
                 problems.append(f"host compared is `{got}` (expected the target's host through the pool's normaliser)")
